@@ -257,7 +257,10 @@ def rule_R2_index_helpers(ctx, f):
                     if st["k"] == "assign" and st["pl"]["l"] == 0:
                         m[names[v]] = inv.term_rvalue(st["rv"])[2].split("::")[-1]
         ctx.ob(rid, "inverse|two-cycle", m == {names[0]: names[1], names[1]: names[0]}, "ShardIndex::inverse must swap the two shards (found %s)" % m, site=inv.raw["span"]["at"])
-    fu = ctx.anchor(rid, "From<u64> for ShardIndex", f.body("<prometheus::histogram::ShardIndex as std::convert::From<u64>>::from"))
+    fu = f.body("<prometheus::histogram::ShardIndex as std::convert::From<u64>>::from")
+    if fu is not None:
+        fu = ctx.anchor(rid, "From<u64> for ShardIndex", fu)
+    # (a conversion that does not exist converts nothing: the readers of the packed word are checked where they decode it, R2 `layout`)
     if fu and len(names) == 2:
         ctx.saw(fu)
         si = fu.switch_info(0)
